@@ -215,7 +215,7 @@ fn build_world(w: &Value, dir: &Path, seed: u64) -> World {
             let after = gs(&e, "after").to_string();
             let cls = gs(&e, "cls");
             // a `before` that nothing defines is a free content (e.g. a base that is in no archive)
-            let defined_later = patches.iter().any(|(_, _, p)| gs(p, "after") == before && gs(p, "cls").starts_with("bsd0"));
+            let defined_later = patches.iter().any(|(_, _, p)| gs(p, "after") == before && gs(p, "cls").contains("bsd0"));
             if !bytes.contains_key(&before) {
                 if defined_later {
                     rest.push((a, n, e));
@@ -226,9 +226,17 @@ fn build_world(w: &Value, dir: &Path, seed: u64) -> World {
             let old = bytes[&before].clone();
             let mut rng = Rng::derive(seed, &format!("c08-patch-{a}-{n}"));
             let p = match cls {
-                "copy" | "corrupt" => {
+                "copy" | "corrupt" | "zerocopy" => {
                     let newc = bytes.entry(after.clone()).or_insert_with(|| plain(&after)).clone();
                     let mut p = make_copy(&old, &newc);
+                    if cls == "zerocopy" {
+                        // "no digest recorded" and a payload that is not the intended content
+                        for b in p[40..56].iter_mut() {
+                            *b = 0;
+                        }
+                        let k = p.len() - 1;
+                        p[k] ^= 0x40;
+                    }
                     if cls == "corrupt" {
                         // parses, base verifies, but the payload no longer has the declared digest
                         let k = p.len() - 1 - rng.below(newc.len() as u64) as usize;
@@ -236,10 +244,17 @@ fn build_world(w: &Value, dir: &Path, seed: u64) -> World {
                     }
                     p
                 }
-                "bsd0" | "bsd0neg" => {
+                "bsd0" | "bsd0neg" | "zerobsd0" => {
                     let (ctrl, data, extra) = gen_bsd0_plan(&old, cls == "bsd0neg", &mut rng);
-                    let (p, newc) = make_bsd0(&old, &ctrl, &data, &extra);
+                    let (mut p, newc) = make_bsd0(&old, &ctrl, &data, &extra);
                     bytes.insert(after.clone(), newc);
+                    if cls == "zerobsd0" {
+                        for b in p[40..56].iter_mut() {
+                            *b = 0;
+                        }
+                        let k = p.len() - 1; // last literal of the extra block
+                        p[k] ^= 0x40;
+                    }
                     p
                 }
                 "garbage" => {
@@ -630,6 +645,28 @@ fn concretise_plan(c: &Value, rng: &mut Rng) -> (Vec<u8>, Vec<u8>, Vec<u8>) {
             let cut = gi(m, "off") as usize;
             let l = file.len().saturating_sub(cut);
             file.truncate(l);
+        }
+        "payload" | "dig" | "dig+payload" | "dig+base" => {
+            if mk != "payload" {
+                let off = gi(m, "off") as usize;
+                for b in file[off..off + 16].iter_mut() {
+                    *b = arg as u8;
+                }
+            }
+            if mk == "payload" || mk == "dig+payload" {
+                let k = file.len() - 1; // last payload byte: a COPY byte / the last literal of the extra block
+                if k >= 68 {
+                    file[k] ^= 0x40;
+                }
+            }
+            if mk == "dig+base" {
+                if old.is_empty() {
+                    old.push(1);
+                } else {
+                    let pos = old.len() / 2;
+                    old[pos] ^= 0x20;
+                }
+            }
         }
         "base" => {
             // the base is not the one the patch was made for
